@@ -35,6 +35,7 @@ type Violation struct {
 	Case     json.RawMessage `json:"case"`
 	Expected string          `json:"expected,omitempty"`
 	Observed string          `json:"observed,omitempty"`
+	Shard    int             `json:"shard,omitempty"` // the worker shard that reported it
 }
 
 // Report is what one worker (or an unsharded check) produces; reports are merged.
@@ -332,6 +333,9 @@ func Main() {
 		if out == nil {
 			out = os.Stdout
 		}
+		for i := range rep.Violations {
+			rep.Violations[i].Shard = ctx.Shard
+		}
 		enc := json.NewEncoder(out)
 		if err := enc.Encode(rep); err != nil {
 			fmt.Fprintln(os.Stderr, "report encode:", err)
@@ -515,7 +519,80 @@ func drive(ck *Check, ctx *Ctx, secs int) int {
 			}
 		}
 	}
+	confirmViolations(ck, ctx, total, n, secs, wd)
 	return finish(ck, ctx, total, infra)
+}
+
+// confirmViolations: "the same case must fail every time". A violation with an unlisted key
+// is replayed alone in fresh processes; if it passes there, the verdict was either produced
+// by what EARLIER cases of its shard left behind (pools, caches - a genuine, reproducible
+// history dependence) or is not a function of the case at all (e.g. a routine with a
+// recorded over-read looked at whatever the allocator had left behind a private copy of the
+// input). The shard is deterministic, so it is run once more: the violation is kept iff it
+// shows up again.
+func confirmViolations(ck *Check, ctx *Ctx, total *Report, n, secs int, wd time.Duration) {
+	if ck.Replay == nil || os.Getenv("VERIF_NO_CONFIRM") != "" || len(total.Violations) == 0 {
+		return
+	}
+	known := knownFor(ck.ID)
+	first := map[string]Violation{}
+	var order []string
+	for _, v := range total.Violations {
+		if _, ok := known[v.Key]; ok {
+			continue
+		}
+		if _, ok := first[v.Key]; !ok {
+			first[v.Key] = v
+			order = append(order, v.Key)
+		}
+	}
+	if len(order) > 12 {
+		return // a dozen distinct unlisted keys are not a coincidence of memory contents
+	}
+	drop := map[string]bool{}
+	for i, k := range order {
+		v := first[k]
+		if strings.HasPrefix(k, "race:") || strings.Contains(v.What, "process died") {
+			continue
+		}
+		tmp := filepath.Join(Root, ".build", "run", fmt.Sprintf("%s-confirm-%d.json", ck.ID, i))
+		b, _ := json.Marshal(v)
+		os.WriteFile(tmp, b, 0o644)
+		alone := false
+		for r := 0; r < 3 && !alone; r++ {
+			rr := spawn(ck, ctx, 400+r, 1, []string{"VERIF_REPLAY_CASE=" + tmp, "VERIF_DEADLINE_S=300"}, 5*time.Minute)
+			alone = rr.rep == nil || len(rr.rep.Violations) > 0
+		}
+		os.Remove(tmp)
+		if alone {
+			continue
+		}
+		rr := spawn(ck, ctx, v.Shard, n, []string{fmt.Sprintf("VERIF_DEADLINE_S=%d", secs)}, wd)
+		again := rr.rep == nil
+		if rr.rep != nil {
+			for _, w := range rr.rep.Violations {
+				if w.Key == k {
+					again = true
+				}
+			}
+		}
+		if again {
+			continue
+		}
+		drop[k] = true
+		fmt.Printf("UNCONFIRMED: property=%s key=%s - the case passes when replayed alone (3 fresh processes) and does not recur when its shard is run again: not a function of the case, not reported\n   case=%.300s\n", ck.ID, k, string(v.Case))
+		total.Notes = append(total.Notes, "unconfirmed and dropped (passes alone, does not recur on a re-run of its shard): "+k)
+	}
+	if len(drop) == 0 {
+		return
+	}
+	kept := total.Violations[:0]
+	for _, v := range total.Violations {
+		if !drop[v.Key] {
+			kept = append(kept, v)
+		}
+	}
+	total.Violations = kept
 }
 
 func lastLines(s string, n int) string {
